@@ -52,13 +52,32 @@ NOT_APPLICABLE = {
     "C20": "quoted cost vs realised objective change is a pure function of (tour, job, position)",
 }
 
-PENDING = {
-    "C08": "check under construction in this framework (population histories)",
-    "C12": "check under construction in this framework (single-breach injection into stored solutions)",
-    "C14": "check under construction in this framework (tour/registry op histories vs model)",
-    "C18": "check under construction in this framework (slot machine / termination histories)",
-    "C19": "check under construction in this framework (GSOM histories)",
-}
+CLAIMED["C08"] = dict(level="exploration", ref="DESIGN.md 5/C08",
+    text="Seeded operation histories (add, add_all batches, on_generation, select, ranked reads; 5..120 ops quick, ..600 thorough) on the three real populations (Greedy, Elitism, Rosomaxa) with generated sizes, selection sizes, rebalance memory and exploration ratio, under the simulated scheduler (Rosomaxa trains through the fork-join seam), worker RNG streams and hash order; after every operation the population is compared with a reference model that remembers every offered individual under an independent comparator: first ranked never worse than the best ever offered (singly or inside a batch), ranked() sorted, size bounds, select() a sub-multiset of what was offered and non-empty iff the population is, phases only forward.",
+    note="The crash-restart consequence clause (stored solution read back as initial solution) is exercised only through the reader fixes found by C12, not by a dedicated scenario; the objective is the harness' total preorder over generated fitness vectors, so C09 is not assumed.",
+    tech=TECH + "population operation-history search against a best-ever-offered reference model under seeded schedules, RNG streams and hash order")
+
+CLAIMED["C12"] = dict(level="fault_enumeration", ref="DESIGN.md 5/C12",
+    text="Positives: full solves under the simulator (seeded fork-join plans, clock policies and stalls, hash order, generated configs); every emitted solution which the independent reference oracle finds valid must be accepted by the bundled checker, also after any/sequence/strict relations derived from the solution itself are added to the problem. Negatives: for each such accepted solution single-breach mutants of 13 classes are enumerated at every applicable site (quick: a seeded subset of <= 60 sites per solution; thorough: all) and each mutant, once the reference oracle confirms it is invalid (relations and demanded breaks: by construction), must be rejected; a checker panic is neither.",
+    note="Exhaustive over sites x classes per stored solution in the thorough tier; solutions are sampled. Multi-task jobs get the unique place tags the checker documents it needs. Required breaks, recharge, clustering and solver-side relations are not generated; cost is not mutated (the checker documents that cost is ignored).",
+    tech=TECH + "single-breach fault enumeration over solution documents emitted by simulated solves, bundled checker vs independent reference oracle")
+
+CLAIMED["C14"] = dict(level="exploration", ref="DESIGN.md 5/C14",
+    text="Seeded operation scripts (1..60 quick, ..200 thorough) on a real Tour of a generated problem's actor (open or closed end, single and multi-task jobs): insert_at at legal positions, insert_last, remove, remove_activity_at, deep_copy and mutation of copies; then on a real Registry / RegistryContext: use_actor, free_actor, get_route, free_route, next_route, deep_copy, deep_slice and RouteContext::deep_copy. After every operation the structure equals a trivial reference model (vector of unique activity ids with their jobs; set of free actor ids): activity sequence, depot ends, job set = jobs of activities, counts, legs incl. the open-end leg, index/index_last/contains, offered <=> not in use, never handed out twice, copies unaffected by mutation of the original and vice versa.",
+    note="No clock or fault exists in this property; the simulator contributes the seeded history search, per-step model comparison, hash-order control (Registry::next iterates a HashSet of Arc addresses) and replay. Only the legal argument domain is generated.",
+    tech=TECH + "operation-history search on Tour/Registry/RegistryContext against reference models under seeded hash order and heap addresses")
+
+CLAIMED["C18"] = dict(level="exploration", ref="DESIGN.md 5/C18",
+    text="Seeded histories: (a) SlotMachine reward streams (zeros, denormals, far out-of-range magnitudes, constant and alternating runs) compared after every update with a closed-form normal-gamma reference (alpha, beta > 0 and finite, variance >= 0, mean inside the hull of prior and rewards, sample finite with a recording sampler and the real sampler never panicking); (b) the real DynamicSelective hyper-heuristic on a scalar problem under frozen/stalled/slow simulated clocks: rewards finite and in the documented range, slot index valid; (c) terminations MaxTime/MaxGeneration/MinVariation(sample|period)/Composite: estimate in [0,1] at every read incl. after clock jumps past the limit, and MinVariation fires exactly when an independently computed coefficient of variation over exactly the documented window is below the threshold.",
+    note="Fitness histories for the CV oracle are non-negative; a step whose reference CV is within 1e-12 of the threshold or non-finite is skipped and counted.",
+    tech=TECH + "reward/termination history search against closed-form reference models under simulated clock policies")
+
+CLAIMED["C19"] = dict(level="exploration", ref="DESIGN.md 5/C19",
+    text="Seeded histories on the bare GSOM Network (harness Input/Storage types; store, store_batch, smooth, compact, generation ticks) and through the Rosomaxa population, with generated spread/distribution factors, node sizes, rebalance memory, learning rates and input streams (clustered, duplicated, constant, outliers, extreme finite magnitudes), under the simulated scheduler (training is a fork-join), worker RNG streams and hash order. After every operation: node key == node.coordinate and keys unique, weights finite and of input dimension, storage size within capacity, find(coordinate) returns that node, mse/unified distance finite, compact never grows the map nor leaves fewer than the minimum, phases only forward.",
+    note="vrp-core's 15-dimensional footprint vector is covered only for finiteness through W1 solves of C01; the GSOM itself runs on harness input types.",
+    tech=TECH + "GSOM operation-history search with per-step map well-formedness invariants under seeded schedules, RNG streams and hash order")
+
+PENDING = {}
 
 def main():
     hooks = subprocess.run(["git", "-C", "/repo", "log", "--format=%h %s", "--grep=verif hook"], capture_output=True, text=True).stdout.strip().splitlines()
